@@ -198,3 +198,27 @@ def parse(text):
     if pos != len(s):
         raise ValueError("trailing text in %r" % text)
     return t
+
+
+UNARY = [("Option", 1), ("Vec", 1), ("HashSet", 1), ("BTreeSet", 1), ("Result", 1), ("&", 1)]
+
+
+def random_clean_type(rng, d, leaves=LEAVES, nocomma=False):
+    """random type outside the two parser classes: tuple elements and the Ok argument of a
+    two-argument Result never print a comma (keeps most of a stream where the theorem speaks)"""
+    if d == 0 or rng.random() < 0.15:
+        return leaf(rng.choice(leaves))
+    cons, ar = rng.choice(UNARY if nocomma else CONSTRUCTORS)
+    args = []
+    for j in range(ar):
+        if cons in ("HashMap", "BTreeMap") and j == 0:
+            args.append(leaf(rng.choice(KEY_LEAVES)))
+        elif cons == "tuple" or (cons == "Result" and ar == 2 and j == 0):
+            args.append(random_clean_type(rng, d - 1, leaves, nocomma=True))
+        else:
+            args.append(random_clean_type(rng, d - 1, leaves, nocomma=nocomma))
+    if cons == "tuple":
+        return ["t", args]
+    if cons == "&":
+        return ["r", args[0]]
+    return ["p", cons, args]
